@@ -43,6 +43,8 @@ type ext struct {
 	gd    *gogoproto.ExtensionDesc
 	ld    *golangproto.ExtensionDesc
 	xt    protoreflect.ExtensionType
+	// hasDefault: the schema declares [default = ...]; the V1 APIs then return that default for an unset extension
+	hasDefault bool
 }
 
 // subject is one extendable message type of one runtime.
@@ -76,7 +78,7 @@ type foreign struct {
 func discover() (subs []*subject, notes []string) {
 	byKey := map[string]*subject{}
 	for _, t := range gcore.Types() {
-		if !strings.HasPrefix(t.File, "p2ext") || t.Name != "Extendable" {
+		if !(strings.HasPrefix(t.File, "p2ext") || t.File == "p2def") || t.Name != "Extendable" {
 			continue
 		}
 		s := &subject{label: fmt.Sprintf("%s/%s.%s", t.RT, t.File, t.Name), rt: string(t.RT), file: t.File, newMsg: t.New, hasGen: true, baseNum: 1, gt: t}
@@ -113,6 +115,7 @@ func discover() (subs []*subject, notes []string) {
 			if int32(xd.Number()) != s.exts[i].num || string(xd.FullName()) != s.exts[i].full {
 				panic(fmt.Sprintf("%s: registered extension %s=%d, corpus declares %s=%d", s.label, s.exts[i].full, s.exts[i].num, xd.FullName(), xd.Number()))
 			}
+			s.exts[i].hasDefault = xd.HasDefault()
 		}
 		subs = append(subs, s)
 		byKey[s.label] = s
